@@ -24,7 +24,7 @@ ORDER_PRESERVING = {"list", "tuple", "iter", "reversed", "enumerate", "zip", "ma
 
 
 def join(a: str, b: str) -> str:
-    order = {"O": 0, "E": 1, "U": 2, "T": 3}
+    order = {"O": 0, "E": 1, "U": 2, "V": 2.5, "T": 3}
     return a if order[a] >= order[b] else b
 
 
@@ -120,6 +120,14 @@ class _FuncPass:
         if isinstance(e, ast.Name):
             if e.id in self.tainted_names:
                 return self.tainted_names[e.id]
+            # comprehension-bound variable: an element of the iterated value
+            anc = self.parent.get(e)
+            while anc is not None:
+                if isinstance(anc, (ast.ListComp, ast.SetComp, ast.GeneratorExp, ast.DictComp)):
+                    for g in anc.generators:
+                        if any(isinstance(x, ast.Name) and x.id == e.id for x in ast.walk(g.target)):
+                            return "U" if self.kind(g.iter, at, depth + 1) in ("E", "V") else "O"
+                anc = self.parent.get(anc)
             defs = self.cfg.reaching(at, e.id)
             if not defs:
                 return self.module_kind(e.id)
@@ -144,7 +152,7 @@ class _FuncPass:
                             k = join(k, self.kind(d2.value, d2.node, depth + 1))
                 elif d.kind == "for" and d.value is not None:
                     ik = self.kind(d.value, d.node, depth + 1)
-                    if ik == "E":
+                    if ik in ("E", "V"):
                         k = join(k, "U")
                 elif d.kind == "unpack" and d.value is not None:
                     pass
@@ -154,13 +162,19 @@ class _FuncPass:
             tail = callee_tail(e)
             argk = [self.kind(a.value if isinstance(a, ast.Starred) else a, at, depth + 1) for a in e.args]
             if fn in ("set", "frozenset"):
+                # a set of sets: its elements are unordered too
+                if e.args and isinstance(e.args[0], (ast.GeneratorExp, ast.ListComp, ast.SetComp)) and self.kind(e.args[0].elt, at, depth + 1) in ("U", "V"):
+                    return "V"
                 return "U"
+            if fn == "sorted" and e.args and isinstance(e.args[0], (ast.GeneratorExp, ast.ListComp)) \
+                    and self.kind(e.args[0].elt, at, depth + 1) == "T":
+                return "T"  # sorting fixes the order of the container, not the order inside its order-tainted elements
             if tail in INSENSITIVE and not isinstance(e.func, ast.Attribute) or fn in ("util.only",):
                 return "O"
             if fn in ("chain.from_iterable", "itertools.chain.from_iterable"):
-                return "T" if argk and argk[0] in ("E", "U", "T") else "O"
+                return "T" if argk and argk[0] in ("E", "U", "V", "T") else "O"
             if tail in ORDER_PRESERVING and not isinstance(e.func, ast.Attribute):
-                if any(k in ("U", "T") for k in argk):
+                if any(k in ("U", "V", "T") for k in argk):
                     return "T"
                 return "E" if any(k == "E" for k in argk) and tail in ("list", "tuple") else "O"
             if tail in LISTING_TAILS:
@@ -172,7 +186,7 @@ class _FuncPass:
                 if tail in ("keys", "values", "items") and rk == "T":
                     return "T"
                 if tail == "join":
-                    return "T" if argk and argk[0] in ("U", "T") else "O"
+                    return "T" if argk and argk[0] in ("U", "V", "T") else "O"
             callee = self.oa.model.resolve_call(self.fi, e, fuzzy=True)
             if callee is not None:
                 return self.oa.ret_kind.get(callee.fq, self.ann_kind(getattr(callee.node, "returns", None)))
@@ -186,11 +200,14 @@ class _FuncPass:
             return "O"
         if isinstance(e, (ast.ListComp, ast.GeneratorExp, ast.DictComp)):
             for g in e.generators:
-                if self.kind(g.iter, at, depth + 1) in ("U", "T"):
+                if self.kind(g.iter, at, depth + 1) in ("U", "T", "V"):
                     return "T"
             elt = e.elt if not isinstance(e, ast.DictComp) else e.value
-            if self.kind(elt, at, depth + 1) == "U" and not isinstance(e, ast.DictComp):
+            ek = self.kind(elt, at, depth + 1)
+            if ek in ("U", "V") and not isinstance(e, ast.DictComp):
                 return "E"
+            if ek == "T":
+                return "T"
             return "O"
         if isinstance(e, ast.IfExp):
             return join(self.kind(e.body, at, depth + 1), self.kind(e.orelse, at, depth + 1))
@@ -204,7 +221,7 @@ class _FuncPass:
         if isinstance(e, (ast.Tuple, ast.List)):
             k = "O"
             for x in e.elts:
-                if isinstance(x, ast.Starred) and self.kind(x.value, at, depth + 1) in ("U", "T"):
+                if isinstance(x, ast.Starred) and self.kind(x.value, at, depth + 1) in ("U", "V", "T"):
                     k = "T"
             return k
         if isinstance(e, ast.Subscript):
@@ -286,6 +303,9 @@ class _FuncPass:
 
     def observe(self, node: ast.AST, k: str, at: int):
         """`node` has kind U/T/E; decide what its consumer does with it."""
+        k_orig = k
+        if k == "V":
+            k = "U"
         if id(node) in self.ignored:
             return
         p = self.consumer_of(node)
@@ -307,7 +327,7 @@ class _FuncPass:
                 return
             if tail in ORDER_PRESERVING or fn in ("chain.from_iterable",) or tail == "join":
                 # the call's own value carries the taint; it is observed at *its* consumer
-                if tail == "join" and k in ("U", "T"):
+                if tail == "join" and k in ("U", "V", "T"):
                     self.observe(p, "T", at)
                 return
             callee = self.oa.model.resolve_call(self.fi, p)
@@ -374,10 +394,10 @@ class _FuncPass:
                     self.oa.findings.append(OrderFinding(self.fi, p, f"order-dependent value stored into {short(tg, 40)}", desc))
             return
         if isinstance(p, ast.Return):
-            self.oa.ret_kind[self.fi.fq] = join(self.oa.ret_kind.get(self.fi.fq, "O"), k)
+            self.oa.ret_kind[self.fi.fq] = join(self.oa.ret_kind.get(self.fi.fq, "O"), k_orig)
             return
         if isinstance(p, (ast.Yield, ast.YieldFrom)):
-            if k in ("U", "T"):
+            if k in ("U", "V", "T"):
                 self.oa.ret_kind[self.fi.fq] = join(self.oa.ret_kind.get(self.fi.fq, "O"), "T")
             return
         if isinstance(p, ast.BinOp):
@@ -418,7 +438,7 @@ class _FuncPass:
                 if isinstance(n, ast.For):
                     at = self.cfg.node_for(n)
                     k = self.kind(n.iter, at)
-                    if k in ("U", "T"):
+                    if k in ("U", "V", "T"):
                         lv = {x.id for x in ast.walk(n.target) if isinstance(x, ast.Name)}
                         comm, why, tainted = self.body_commutative(n.body, lv)
                         self.oa.iterations.append(f"{fi.fq}: for {short(n.target, 20)} in {short(n.iter, 50)} [{k}] "
@@ -437,7 +457,7 @@ class _FuncPass:
                     except Exception:
                         continue
                     k = self.kind(n, at)
-                    if k in ("U", "T", "E"):
+                    if k in ("U", "V", "T", "E"):
                         if k == "U" and isinstance(n, (ast.Set, ast.SetComp, ast.Call)):
                             self.oa.sources.append(f"{fi.fq}: {short(n, 70)}")
                         self.observe(n, k, at)
